@@ -59,7 +59,7 @@ func init() {
 		CaseTimeout: 150 * time.Second,
 		ChildSetup:  func() { installPointHooks(true) },
 		Require: func(tier string) map[string]int64 {
-			return map[string]int64{"messages_on_wire_verified": 3000, "histories_order_checked": 100, "scenarios_with_interleaved_writers": 30, "pongs_written_while_writers_ran": 50, "close_landed_mid_message": 5, "reader_messages_verified": 1000}
+			return map[string]int64{"messages_on_wire_verified": 2000, "histories_order_checked": 100, "scenarios_with_interleaved_writers": 30, "pongs_written_while_writers_ran": 50, "close_landed_mid_message": 5, "reader_messages_verified": 1000}
 		},
 		Finish: func(a *fw.Aggregate) {
 			a.Extra["interleavings_measure"] = "distinct_wire_orders counts distinct sequences of (writer id) per scenario prefix; hook_points_hit lists the library's verif points reached while perturbation was active"
